@@ -341,7 +341,7 @@ func c20aClosed(c *Ctx) {
 			c.Check(okCaller, fmt.Sprintf("stacks-closed/%s->%s@%d", fn.Name(), g.Name(), c.T(fn).callOrd[ci]), c.W.Pos(ci.Pos()), "scopes are pushed and popped by while, do-while and switch only", fn.Name()+" calls "+g.Name()+": only while, do-while and switch statements open and close a break / continue scope (an extra scope makes 'break' and 'continue' bind to the wrong construct, or be accepted outside of any)")
 		}
 	}
-	c.Check(nTouch >= 8 && nCalls >= 8, "stacks-closed/census", "-", fmt.Sprintf("%d accesses to the stack fields, %d push / pop calls", nTouch, nCalls), fmt.Sprintf("only %d accesses to the stack fields and %d push / pop calls found", nTouch, nCalls))
+	c.Check(nTouch >= 8 && nCalls >= 4, "stacks-closed/census", "-", fmt.Sprintf("%d accesses to the stack fields, %d push / pop calls", nTouch, nCalls), fmt.Sprintf("only %d accesses to the stack fields and %d push / pop calls found", nTouch, nCalls))
 }
 
 func keysOf(m map[string]bool) []string {
@@ -1003,6 +1003,14 @@ func c20e(c *Ctx) {
 			for _, call := range callsToIn(emit, f) {
 				args := call.Common().Args
 				c.Check(args[len(args)-1] == textMap, "Emit/passes-text-labels/"+f.Name(), c.W.Pos(call.Pos()), "text-label set handed to the script emitter", "the script emitter is not given the text-label set")
+				// ... complete: no name is still being entered once a script is being rendered
+				complete := true
+				instrs(emit, func(in ssa.Instruction) {
+					if mu, ok := in.(*ssa.MapUpdate); ok && mu.Map == textMap && canReach(call.(ssa.Instruction), mu) {
+						complete = false
+					}
+				})
+				c.Check(complete, "Emit/text-labels-complete-before-rendering/"+f.Name(), c.W.Pos(call.Pos()), "all text names are collected before any script is rendered", "text names are still being entered into the set after a script was rendered: a script label is only checked against the texts seen so far (a label equal to a text's name is accepted and defined twice)")
 			}
 		}
 		// ... and every other route to the script emitter hands on the set its caller was given
